@@ -6,6 +6,8 @@
 package twin
 
 import (
+	"crypto/sha1"
+	"encoding/hex"
 	"fmt"
 	"math/rand"
 	"os"
@@ -275,8 +277,16 @@ func Dirty(r *rand.Rand, dir string, cur gen.Tree, o PreOpts) []PreOp {
 				nb[0] = 'Z'
 			}
 			os.WriteFile(full, nb, fi.Mode().Perm())
-			os.Chtimes(full, fi.ModTime(), fi.ModTime()) // keep the old mtime: racy-clean entry
-			ops = append(ops, PreOp{"edit-samesize-racy", p})
+			if fi.ModTime().Before(idxTime) {
+				// restoring an mtime older than the index would only be detectable through ctime/inode,
+				// which no copy preserves: outside what git promises. Use the index's mtime instead.
+				os.Chtimes(full, idxTime, idxTime)
+				ops = append(ops, PreOp{"edit-samesize", p})
+			} else {
+				// racily clean entry (mtime >= index mtime, see MakeRacy): keep size AND mtime
+				os.Chtimes(full, fi.ModTime(), fi.ModTime())
+				ops = append(ops, PreOp{"edit-samesize-racy", p})
+			}
 		case k == 3 && len(paths) > 0: // delete tracked
 			p := paths[r.Intn(len(paths))]
 			if !exists(p) {
@@ -513,4 +523,165 @@ func CopyTree(src, dst string) error {
 		os.Chtimes(dirs[i].p, dirs[i].fi.ModTime(), dirs[i].fi.ModTime())
 	}
 	return nil
+}
+
+// MakeRacy turns every tracked regular file of the worktree at dir into a racily-clean index entry:
+// file mtime == recorded entry mtime == mtime of the index file (no sleeping: timestamps are set).
+// A later same-size edit that restores the mtime can then only be noticed by content comparison.
+func MakeRacy(g *gitx.Git, dir string) error {
+	idx := filepath.Join(dir, ".git", "index")
+	fi, err := os.Stat(idx)
+	if err != nil {
+		return err
+	}
+	t := fi.ModTime().Truncate(time.Second)
+	r := g.Run(dir, "ls-files", "-z")
+	if !r.OK() {
+		return fmt.Errorf("ls-files: %s", r)
+	}
+	for _, p := range strings.Split(strings.TrimRight(string(r.Out), "\x00"), "\x00") {
+		full := filepath.Join(dir, filepath.FromSlash(p))
+		if lf, err := os.Lstat(full); err == nil && lf.Mode().IsRegular() {
+			os.Chtimes(full, t, t)
+		}
+	}
+	if r := g.Run(dir, "update-index", "-q", "--really-refresh"); !r.OK() {
+		return fmt.Errorf("update-index --refresh: %s", r)
+	}
+	return os.Chtimes(idx, t, t)
+}
+
+// CompareFile checks an on-disk path against a generated tree entry: type, bytes, exec bit, symlink
+// target; a gitlink must be a directory. Returns "" when equal.
+func CompareFile(full string, f gen.File) string {
+	fi, err := os.Lstat(full)
+	if err != nil {
+		return "missing"
+	}
+	switch f.Mode {
+	case "120000":
+		if fi.Mode()&os.ModeSymlink == 0 {
+			return "type: expected symlink, found " + fi.Mode().String()
+		}
+		t, _ := os.Readlink(full)
+		if t != string(f.Content) {
+			return fmt.Sprintf("content: symlink target %q, want %q", t, f.Content)
+		}
+	case "160000":
+		if !fi.IsDir() {
+			return "type: expected submodule directory, found " + fi.Mode().String()
+		}
+	default:
+		if !fi.Mode().IsRegular() {
+			return "type: expected regular file, found " + fi.Mode().String()
+		}
+		b, err := os.ReadFile(full)
+		if err != nil {
+			return "content: " + err.Error()
+		}
+		if string(b) != string(f.Content) {
+			return fmt.Sprintf("content: %d bytes %.60q, want %d bytes %.60q", len(b), b, len(f.Content), f.Content)
+		}
+		if exec := fi.Mode().Perm()&0o100 != 0; exec != (f.Mode == "100755") {
+			return fmt.Sprintf("mode: exec bit %v, want mode %s", exec, f.Mode)
+		}
+	}
+	return ""
+}
+
+// Conflicts reports whether path p collides with a path of tree t (equal, or one is a directory prefix of the other).
+func Conflicts(t gen.Tree, p string) bool {
+	for q := range t {
+		if q == p || strings.HasPrefix(q, p+"/") || strings.HasPrefix(p, q+"/") {
+			return true
+		}
+	}
+	return false
+}
+
+// BlobID is git's SHA-1 object id of a blob with the given content.
+func BlobID(content []byte) string {
+	h := sha1.New()
+	fmt.Fprintf(h, "blob %d\x00", len(content))
+	h.Write(content)
+	return hex.EncodeToString(h.Sum(nil))
+}
+
+// ReadHead parses .git/HEAD directly: symref target ("detached" if HEAD holds an id) and the raw id if detached.
+func ReadHead(dir string) (symref, id string) {
+	b, err := os.ReadFile(filepath.Join(dir, ".git", "HEAD"))
+	if err != nil {
+		return "unreadable", ""
+	}
+	s := strings.TrimSpace(string(b))
+	if strings.HasPrefix(s, "ref:") {
+		return strings.TrimSpace(s[4:]), ""
+	}
+	return "detached", s
+}
+
+// ReadRefs reads loose refs and packed-refs of a repository in-process (loose wins). Used for the twin that
+// git itself wrote; the go-git twin is always read through `git for-each-ref`.
+func ReadRefs(dir string) map[string]string {
+	refs := map[string]string{}
+	if b, err := os.ReadFile(filepath.Join(dir, ".git", "packed-refs")); err == nil {
+		for _, ln := range strings.Split(string(b), "\n") {
+			if ln == "" || ln[0] == '#' || ln[0] == '^' {
+				continue
+			}
+			if f := strings.Fields(ln); len(f) == 2 {
+				refs[f[1]] = f[0]
+			}
+		}
+	}
+	root := filepath.Join(dir, ".git", "refs")
+	filepath.Walk(root, func(p string, fi os.FileInfo, err error) error {
+		if err != nil || fi.IsDir() {
+			return nil
+		}
+		b, err := os.ReadFile(p)
+		if err != nil {
+			return nil
+		}
+		rel, _ := filepath.Rel(filepath.Join(dir, ".git"), p)
+		refs[filepath.ToSlash(rel)] = strings.TrimSpace(string(b))
+		return nil
+	})
+	return refs
+}
+
+// GitRefs lists refs through `git for-each-ref` (name -> id).
+func GitRefs(g *gitx.Git, dir string) (map[string]string, error) {
+	r := g.Run(dir, "for-each-ref", "--format=%(refname) %(objectname)")
+	if !r.OK() {
+		return nil, fmt.Errorf("for-each-ref: %s", r)
+	}
+	refs := map[string]string{}
+	for _, ln := range strings.Split(strings.TrimSpace(string(r.Out)), "\n") {
+		if f := strings.Fields(ln); len(f) == 2 {
+			refs[f[0]] = f[1]
+		}
+	}
+	return refs, nil
+}
+
+// SplitZ splits NUL-terminated records.
+func SplitZ(b []byte) []string {
+	if len(b) == 0 {
+		return nil
+	}
+	return strings.Split(strings.TrimRight(string(b), "\x00"), "\x00")
+}
+
+// StatusZ runs `git status --porcelain=v1 -z --untracked-files=all --no-renames` without optional locks
+// and returns the sorted entries ("XY path").
+func StatusZ(g *gitx.Git, dir string, extra ...string) ([]string, error) {
+	args := append([]string{"--no-optional-locks", "status", "--porcelain=v1", "-z", "--untracked-files=all", "--no-renames"}, extra...)
+	r := g.Run(dir, args...)
+	if !r.OK() {
+		return nil, fmt.Errorf("status: %s", r)
+	}
+	s := SplitZ(r.Out)
+	sort.Strings(s)
+	return s, nil
 }
